@@ -9,14 +9,17 @@ noncomputable section
 open Spec
 namespace C15Fortran
 
-/-- P (C15): the Fortran analytic low-Q term `yDS` is (2/π) times the term the port adds, for Qmin ≠ 0 and r ≠ 0 -/
-theorem P_term_eq_fortran_yDS (lmod : Bool) (qmin smin qmax r : ℝ) (hq : qmin ≠ 0) (hr : r ≠ 0) :
+/-- P (C15): the Fortran analytic low-Q term `yDS` is (2/π) times the term the port adds, for Qmin ≠ 0 and r ≠ 0 and — with
+    the Lorch window — r ≠ ±π/Qmax, where the Fortran quotients are 0/0 (the port uses the sinc forms there, C15) -/
+theorem P_term_eq_fortran_yDS (lmod : Bool) (qmin smin qmax r : ℝ) (hq : qmin ≠ 0) (hr : r ≠ 0)
+    (hm : lmod = true → r - Real.pi / qmax ≠ 0) (hp : lmod = true → r + Real.pi / qmax ≠ 0) :
     Fortran.yDS lmod qmin smin (Real.pi / qmax) r = 2 / Real.pi * C15.codeTerm lmod qmin smin qmax r := by
   cases lmod
   · simp only [Fortran.yDS, C15.codeTerm, Bool.false_eq_true, if_false, hq, hr, ne_eq, not_false_eq_true, if_true,
       Transc.sin_real, Transc.cos_real, Transc.pi_real, Nat.cast_ofNat]
     field_simp
-  · simp only [Fortran.yDS, C15.codeTerm, if_true, hq, ne_eq, not_false_eq_true, Transc.sin_real, Transc.cos_real,
+  · rw [C15.P_term_lorch_quotient_form qmin smin qmax r (hm rfl) (hp rfl)]
+    simp only [Fortran.yDS, if_true, hq, ne_eq, not_false_eq_true, Transc.sin_real, Transc.cos_real,
       Transc.pi_real, Nat.cast_ofNat, Nat.cast_one]
     ring
 
